@@ -218,13 +218,38 @@ Definition upd_rec_wd (s : acstate) (x : bool) : acstate :=
 Definition upd_locked (s : acstate) (x : bool) : acstate :=
   {| s_locked := x; s_prim_rec := s_prim_rec s; s_prim_wd := s_prim_wd s; s_rec_rec := s_rec_rec s; s_rec_wd := s_rec_wd s |}.
 
-(* confirmation glue: state machine reset + update_role_assignment (needs SELF among the updaters) *)
+Definition set_role (rs : ruleset) (r : role) (x : rule) : ruleset :=
+  match r with
+  | Primary => {| rs_primary := x; rs_recovery := rs_recovery rs; rs_confirmation := rs_confirmation rs |}
+  | Recovery => {| rs_primary := rs_primary rs; rs_recovery := x; rs_confirmation := rs_confirmation rs |}
+  | Confirmation => {| rs_primary := rs_primary rs; rs_recovery := rs_recovery rs; rs_confirmation := x |}
+  end.
+
+(* blueprint.rs update_role_assignment: three RoleAssignment.set calls made by the component itself,
+   in the order primary, recovery, confirmation; each needs SELF among the updaters of that role
+   (resolve_update_role_method_permission); the first refusal aborts the transaction *)
+Definition self_updates (t : table) (r : role) : bool :=
+  match lookup (role_name r) (t_updaters t) with Some ups => mem_str (t_self t) ups | None => false end.
+Definition update_role_assignment (t : table) (cur new : ruleset) : option ruleset :=
+  if self_updates t Primary then
+    let r1 := set_role cur Primary (rs_primary new) in
+    if self_updates t Recovery then
+      let r2 := set_role r1 Recovery (rs_recovery new) in
+      if self_updates t Confirmation then Some (set_role r2 Confirmation (rs_confirmation new)) else None
+    else None
+  else None.
+(* confirmation glue: state machine reset (transition_mut) + update_role_assignment *)
 Definition confirm_rules (t : table) (c : controller) (rs : ruleset) : controller * outcome :=
-  if self_can_update t then (set_roles (set_st c st_default) rs, Ok) else (c, Fail EUnauthorized).
-(* badge withdrawal glue: reset + take_all + locked_role_assignment *)
+  match update_role_assignment t (c_roles c) rs with
+  | Some rs' => (set_roles (set_st c st_default) rs', Ok)
+  | None => (c, Fail EUnauthorized)
+  end.
+(* badge withdrawal glue: reset + controlled_asset.take_all + update_role_assignment(locked_role_assignment) *)
 Definition confirm_withdraw (t : table) (c : controller) : controller * outcome :=
-  if self_can_update t then (set_badge (set_roles (set_st c st_default) deny_all_rules) false, Ok)
-  else (c, Fail EUnauthorized).
+  match update_role_assignment t (c_roles c) deny_all_rules with
+  | Some rs' => (set_badge (set_roles (set_st c st_default) rs') false, Ok)
+  | None => (c, Fail EUnauthorized)
+  end.
 
 Fixpoint nodupb (l : list N) : bool :=
   match l with [] => true | x :: l' => negb (existsb (N.eqb x) l') && nodupb l' end.
@@ -323,13 +348,6 @@ Definition body (t : table) (c : controller) (now : Z) (m : meth) : controller *
       else (c, Fail EOther)
   | MSetRoleDirect _ _ => (c, Fail EOther)   (* never reached through `step` *)
   | MBurnBadge _ => (c, Fail EOther)         (* never reached through `step` *)
-  end.
-
-Definition set_role (rs : ruleset) (r : role) (x : rule) : ruleset :=
-  match r with
-  | Primary => {| rs_primary := x; rs_recovery := rs_recovery rs; rs_confirmation := rs_confirmation rs |}
-  | Recovery => {| rs_primary := rs_primary rs; rs_recovery := x; rs_confirmation := rs_confirmation rs |}
-  | Confirmation => {| rs_primary := rs_primary rs; rs_recovery := rs_recovery rs; rs_confirmation := x |}
   end.
 
 (* one call by `who` at minute `now`: the auth module checks the method's accessibility against the
